@@ -915,6 +915,20 @@ impl<'a> Tr<'a> {
                 syn::visit::Visit::visit_block(&mut l, b);
             }
         }
+        // a pointer alias (`let start = this.as_ptr()`) mentioned in the loop: the slice it points into is what the
+        // translated reads use
+        let mentioned: Vec<String> = v.0.clone();
+        for n in &mentioned {
+            if let Some((term, _, _)) = self.ptr_alias.get(n) {
+                for sc in &self.scopes {
+                    for var in sc.keys() {
+                        if lean_ident(var) == *term && !v.0.contains(var) {
+                            v.0.push(var.clone());
+                        }
+                    }
+                }
+            }
+        }
         for fr in &self.frames {
             if let Some(lab) = &fr.label {
                 if l.0.contains(lab) {
